@@ -35,9 +35,25 @@ use white_whale_std::vault_network::vault as vmsg;
 use white_whale_std::vault_network::vault_factory as fmsg;
 use white_whale_std::vault_network::vault_router as rmsg;
 
-const DENOM: &str = "uasset";
-/// a denom unrelated to the vault, held by accounts 0..3 (attached to foreign entry points)
-const JUNK: &str = "ujunk";
+/// (vault asset denom, unrelated denom held by accounts 0..3 and attached to foreign entry points / as stray
+/// coins) per world, chosen by `dn=<k>` on the init line (the model does not look at names): plain; an IBC
+/// voucher (upper-case hex) with its lower-case twin as the unrelated denom; a mixed-case denom with its
+/// lower-case twin; a denom that is a prefix of the unrelated one
+const DENOM_SETS: [(&str, &str); 4] = [
+    ("uasset", "ujunk"),
+    ("ibc/27394FB092D2ECCD56123C74F36E4C1F926001CEADA9CA97EA622B25F41E5EB2", "ibc/27394fb092d2eccd56123c74f36e4c1f926001ceada9ca97ea622b25f41e5eb2"),
+    ("uAsset", "uasset"),
+    ("uasset", "uassetx"),
+];
+static DN: std::sync::atomic::AtomicUsize = std::sync::atomic::AtomicUsize::new(0);
+#[allow(non_snake_case)]
+fn DENOM() -> &'static str {
+    DENOM_SETS[DN.load(std::sync::atomic::Ordering::Relaxed) % DENOM_SETS.len()].0
+}
+#[allow(non_snake_case)]
+fn JUNK() -> &'static str {
+    DENOM_SETS[DN.load(std::sync::atomic::Ordering::Relaxed) % DENOM_SETS.len()].1
+}
 const E18: u128 = 1_000_000_000_000_000_000;
 const ACCTS: [&str; 6] = ["alice", "bob", "carol", "adv", "collector", "router"];
 const ROUTER: usize = 5;
@@ -467,7 +483,7 @@ impl World {
             .unwrap();
         accts[ROUTER] = router.clone();
         for a in accts[..4].iter().chain(std::iter::once(&owner)) {
-            app.sudo(cw_multi_test::SudoMsg::Bank(cw_multi_test::BankSudo::Mint { to_address: a.to_string(), amount: coins(1u128 << 100, JUNK) }))
+            app.sudo(cw_multi_test::SudoMsg::Bank(cw_multi_test::BankSudo::Mint { to_address: a.to_string(), amount: coins(1u128 << 100, JUNK()) }))
                 .unwrap();
         }
         let mut asset_token = None;
@@ -476,12 +492,12 @@ impl World {
                 if bals[i] > 0 {
                     app.sudo(cw_multi_test::SudoMsg::Bank(cw_multi_test::BankSudo::Mint {
                         to_address: a.to_string(),
-                        amount: coins(bals[i], DENOM),
+                        amount: coins(bals[i], DENOM()),
                     }))
                     .unwrap();
                 }
             }
-            AssetInfo::NativeToken { denom: DENOM.into() }
+            AssetInfo::NativeToken { denom: DENOM().into() }
         } else {
             let init: Vec<Cw20Coin> = accts
                 .iter()
@@ -563,7 +579,7 @@ impl World {
 
     fn asset_bal(&self, a: &Addr) -> u128 {
         match &self.asset_token {
-            None => self.app.wrap().query_balance(a, DENOM).unwrap().amount.u128(),
+            None => self.app.wrap().query_balance(a, DENOM()).unwrap().amount.u128(),
             Some(t) => cw20_bal(&self.app, t, a),
         }
     }
@@ -627,14 +643,14 @@ impl World {
                 .accts
                 .iter()
                 .chain([&self.owner, &self.vault])
-                .map(|a| q.query_balance(a, JUNK).unwrap().amount.u128())
+                .map(|a| q.query_balance(a, JUNK()).unwrap().amount.u128())
                 .collect(),
         }
     }
 
     fn pay_msg(&self, to: &Addr, n: u128) -> CosmosMsg {
         match &self.asset_token {
-            None => BankMsg::Send { to_address: to.to_string(), amount: coins(n, DENOM) }.into(),
+            None => BankMsg::Send { to_address: to.to_string(), amount: coins(n, DENOM()) }.into(),
             Some(t) => WasmMsg::Execute {
                 contract_addr: t.to_string(),
                 msg: to_json_binary(&Cw20ExecuteMsg::Transfer { recipient: to.to_string(), amount: n.into() }).unwrap(),
@@ -669,7 +685,7 @@ impl World {
                         WasmMsg::Execute {
                             contract_addr: self.vault.to_string(),
                             msg: to_json_binary(&vmsg::ExecuteMsg::Deposit { amount: (*n).into() }).unwrap(),
-                            funds: if self.kind == 0 && *n > 0 { coins(*n, DENOM) } else { vec![] },
+                            funds: if self.kind == 0 && *n > 0 { coins(*n, DENOM()) } else { vec![] },
                         }
                         .into(),
                     );
@@ -727,7 +743,7 @@ impl World {
 
     fn asset_info(&self) -> AssetInfo {
         match &self.asset_token {
-            None => AssetInfo::NativeToken { denom: DENOM.into() },
+            None => AssetInfo::NativeToken { denom: DENOM().into() },
             Some(t) => AssetInfo::Token { contract_addr: t.to_string() },
         }
     }
@@ -775,7 +791,7 @@ impl World {
                         WasmMsg::Execute {
                             contract_addr: self.vault.to_string(),
                             msg: to_json_binary(&vmsg::ExecuteMsg::Deposit { amount: (*n).into() }).unwrap(),
-                            funds: if self.kind == 0 && *n > 0 { coins(*n, DENOM) } else { vec![] },
+                            funds: if self.kind == 0 && *n > 0 { coins(*n, DENOM()) } else { vec![] },
                         }
                         .into(),
                     );
@@ -861,8 +877,8 @@ impl VaultEngine {
         }
         // the coins attached to the message on top of what it asks for
         let extra: Vec<Coin> = match stray {
-            Some((0, n)) => coins(n, DENOM),
-            Some((_, n)) => coins(n, JUNK),
+            Some((0, n)) => coins(n, DENOM()),
+            Some((_, n)) => coins(n, JUNK()),
             None => vec![],
         };
         match ws[0] {
@@ -885,10 +901,10 @@ impl VaultEngine {
                             )
                             .map_err(|e| e.to_string())?;
                     }
-                    let mut funds = if w.kind == 0 && sent > 0 { coins(sent, DENOM) } else { vec![] };
+                    let mut funds = if w.kind == 0 && sent > 0 { coins(sent, DENOM()) } else { vec![] };
                     match stray {
                         // one coin per denom: stray coins of the asset's denom join the deposit's own coin
-                        Some((0, n)) if w.kind == 0 => funds = coins(sent + n, DENOM),
+                        Some((0, n)) if w.kind == 0 => funds = coins(sent + n, DENOM()),
                         _ => funds.extend(extra.iter().cloned()),
                     }
                     let r = w
@@ -1116,10 +1132,10 @@ impl VaultEngine {
                 }
                 let who = w.accts[a[0] as usize].clone();
                 let funds: Vec<Coin> = match a[1] {
-                    0 => coins(a[2], DENOM),
-                    1 => coins(a[2], JUNK),
+                    0 => coins(a[2], DENOM()),
+                    1 => coins(a[2], JUNK()),
                     2 => vec![],
-                    _ => vec![coin(a[2], DENOM), coin(a[2], JUNK)],
+                    _ => vec![coin(a[2], DENOM()), coin(a[2], JUNK())],
                 };
                 let r = guarded(|| w.app.execute_contract(who.clone(), w.vault.clone(), &vmsg::ExecuteMsg::Withdraw {}, &funds));
                 ok = matches!(r, Outcome::Ok(_));
@@ -1513,6 +1529,7 @@ impl Engine for VaultEngine {
             let mut kind = 0u8;
             let mut fees = (0u128, 0u128, 0u128);
             let mut bals = vec![0u128; 6];
+            DN.store(0, std::sync::atomic::Ordering::Relaxed);
             for t in &ws[2..] {
                 let kv: Vec<&str> = t.split('=').collect();
                 if kv.len() != 2 {
@@ -1524,6 +1541,7 @@ impl Engine for VaultEngine {
                     "f" => fees.1 = kv[1].parse().unwrap_or(0),
                     "b" => fees.2 = kv[1].parse().unwrap_or(0),
                     "bals" => bals = kv[1].split(',').map(|x| x.parse().unwrap_or(0)).collect(),
+                    "dn" => DN.store(kv[1].parse().unwrap_or(0), std::sync::atomic::Ordering::Relaxed),
                     _ => return "bad-op".into(),
                 }
             }
@@ -1618,7 +1636,7 @@ impl VaultEngine {
                     }
                 })
                 .collect();
-            return Some(format!("init vault kind={kind} p={p} f={f} b={b} bals={}", bals.join(",")));
+            return Some(format!("init vault kind={kind} p={p} f={f} b={b} bals={} dn={}", bals.join(","), rng.below(DENOM_SETS.len() as u64)));
         }
         if step > self.len {
             return None;
